@@ -4,6 +4,7 @@
     inst <S> <J>   → "<P> <VR> <VI>"   P = accepts, VR = jsValid (toDoc s) (out s x) ("-" if ¬P), VI = jsValid (toDoc s) x
 -/
 import Gozod.Model.JsonSchema
+import Gozod.Model.JsonSchemaLazy
 namespace Gozod.Drv.C07
 open Gozod.Jsc
 
@@ -194,6 +195,17 @@ partial def pJField : P (Str × Json)
       pure ((k, v), ts)
   | _ => none
 end
+
+/-- `( lazy FLAGS X )` with FLAGS ∈ {--, o-, -n, on} (Optional / Nilable applied to the lazy schema), else a base schema. -/
+partial def pX : P X
+  | "(" :: "lazy" :: fl :: ts => do
+      let (o, n) ← (match fl with
+        | "--" => some (false, false) | "o-" => some (true, false) | "-n" => some (false, true) | "on" => some (true, true)
+        | _ => none)
+      let (x, ts) ← pX ts
+      let (_, ts) ← expect ")" ts
+      pure (.lazy o n x, ts)
+  | ts => do let (s, ts) ← pS ts; pure (.base s, ts)
 
 /-! ### rendering the model's document as canonical JSON (sorted keys, exact numbers) -/
 
@@ -451,28 +463,52 @@ def instLine (s : S) (x : Json) : String :=
         b2s p ++ " " ++ (if p then b2s (jsValid j (out s x)) else "-") ++ " " ++ b2s (jsValid j x)
           ++ "\t" ++ (if coherent then "" else "INCOHERENT,") ++ ",".intercalate rs
 
+/-- why a lazy case lies outside `reprX` (class names as in known-findings.txt). -/
+partial def xReasons : X → List String
+  | .base s => reasons false false s
+  | .lazy o n x =>
+      ifNot x.consults "lazy-typed-inner-unvalidated"
+      ++ ifNot (if n then true else !o && !acceptsX x .null) "lazy-null"
+      ++ xReasons x
+
+def instLineX : X → Json → String
+  | .base s, v => instLine s v
+  | x, v =>
+      let j := toDocX x
+      let p := acceptsX x v
+      let rs := dedup (xReasons x ++ instReasons v)
+      let coherent := (rs.isEmpty == (reprX true x && instOK v))
+      b2s p ++ " " ++ (if p then b2s (jsValid j (outX x v)) else "-") ++ " " ++ b2s (jsValid j v)
+        ++ "\t" ++ (if coherent then "" else "INCOHERENT,") ++ ",".intercalate rs
+
+/-- one call on a (possibly lazy) schema: a base schema goes through `convertO`; for a lazy schema the same rule
+    (Cycles:"throw" on an instance met twice is an error, no other option changes the inlined document). -/
+def convertX (o : Opts) (dup : Bool) : X → Option JS
+  | .base s => convertO o dup s
+  | x => if o.cyclesThrow && dup then none else some (toDocX x)
+
 def handle : List String → String
   | "doc" :: ts =>
-    match pS ts with
-    | some (s, []) => docLine (convertO {} false s)
+    match pX ts with
+    | some (x, []) => docLine (convertX {} false x)
     | _ => "bad-op"
   | "inst" :: ts =>
-    match pS ts with
-    | some (s, ts) =>
+    match pX ts with
+    | some (x, ts) =>
       match pJ ts with
-      | some (x, []) => instLine s x
+      | some (v, []) => instLineX x v
       | _ => "bad-op"
     | none => "bad-op"
   -- the k-th call of a history: `runHistory` gives every call the document `convertO` gives it alone
   | "hdoc" :: _k :: o :: ts =>
-    match pOpts o, pS ts with
-    | some (o, dup), some (s, []) => docLine (convertO o dup s)
+    match pOpts o, pX ts with
+    | some (o, dup), some (x, []) => docLine (convertX o dup x)
     | _, _ => "bad-op"
   | "hinst" :: _k :: o :: ts =>
-    match pOpts o, pS ts with
-    | some (o, dup), some (s, ts) =>
-      match pJ ts, convertO o dup s with
-      | some (x, []), some _ => instLine s x
+    match pOpts o, pX ts with
+    | some (o, dup), some (x, ts) =>
+      match pJ ts, convertX o dup x with
+      | some (v, []), some _ => instLineX x v
       | _, _ => "bad-op"
     | _, _ => "bad-op"
   | _ => "bad-op"
